@@ -69,7 +69,8 @@ def c10_case(draw):
             "odd_config": draw(st.sampled_from([None] * 12 + observe.ODD_NAMES)),
             "raise_kind": draw(st.sampled_from([None] * 9 + sorted(M.EXC_NAMES))),
             "double_fault": draw(st.sampled_from([False] * 9 + [True])),
-            "module_ref": draw(st.sampled_from([False] * 5 + [True])), "fresh_process": draw(st.sampled_from([False] * 11 + [True]))}
+            "module_ref": draw(st.sampled_from([False] * 5 + [True])),
+            "late_ref": draw(st.sampled_from([False] * 7 + [True])), "fresh_process": draw(st.sampled_from([False] * 11 + [True]))}
 
 
 def _files() -> Dict[str, str]:
@@ -138,6 +139,13 @@ def check_case(case: Dict[str, Any], col: Collector, workroot: str = ".") -> Non
             if n["p"] in ("VEchoProbe", "FloatMultiplyOperation", "FloatAddOperation", "FloatMultiplyOperationWithDefault", "VInPlaceScaleOp") and not n.get("sweep"):
                 n.setdefault("params", {})[M.LIB[n["p"]]["params"][0][0]] = {"$odd": case["odd_config"]}
                 break
+    elif case.get("late_ref"):
+        # a short name that nothing has registered yet, followed by the `module:Class` reference that would register it:
+        # traced or not, the run must fail at the first of the two nodes (until some run has resolved the reference)
+        m0 = M.run(a)
+        if m0["ok"] and M.kind_of(m0["data"]) == "Float":
+            a = copy.deepcopy(a)
+            a["nodes"] += [{"p": "VShadowLate"}, {"p": "verif.lib.shadow:VShadowLate"}]
     elif case.get("module_ref"):
         # a short-name node followed by a `module:Class` reference into a module that also defines that short name
         m0 = M.run(a)
